@@ -306,6 +306,7 @@ class CallMixin:
         self.inline_loops = {}
         self.loop_var_types = con.ghost.get("loop_var_types", {})
         self.stmt_asserts = con.ghost.get("asserts", {})
+        self.str_shape = con.ghost.get("str_shape")
         from .engine import Vars as _V
         _V.types = self.loop_var_types
         self.call_depth = 0
